@@ -218,8 +218,12 @@ impl Rank {
         Self(buf)
     }
 
-    fn count_zeros(&self) -> u32 {
-        self.0.iter().copied().map(u64::count_zeros).sum()
+    /// Sorts ranks by descending number of set bits (i.e. contributing rules).
+    ///
+    /// This is `-bit_count(rank)` in fonttools. Counting zeros instead is not
+    /// equivalent, because ranks can have different numbers of words.
+    fn sort_key(&self) -> std::cmp::Reverse<u32> {
+        std::cmp::Reverse(self.0.iter().copied().map(u64::count_ones).sum())
     }
 
     fn is_all_zeros(&self) -> bool {
@@ -304,7 +308,7 @@ pub fn overlay_feature_variations(
 
     let mut items = Vec::new();
     let mut sorted = boxmap.into_iter().collect::<Vec<_>>();
-    sorted.sort_by_key(|(_, rank)| rank.count_zeros());
+    sorted.sort_by_key(|(_, rank)| rank.sort_key());
     for (box_, mut rank) in sorted {
         if rank.is_all_zeros() {
             continue;
